@@ -60,7 +60,7 @@ def unit(t, d):
         name="traverse_chain_%s_%s" % (t, "forward" if d else "reversed"),
         uses="use vstd::prelude::*;\n",
         prelude="prelude.rs", proofs="proofs_%s_%s.rs" % (t, "true" if d else "false"), witness="witness.rs" if d else None,
-        rlimit=60, min_verified=4, twins=["c14_paged_lookup_bounded"],
+        rlimit=60, min_verified=4, twins=[],
         tier="quick" if (t == "u64" or d) else "thorough",
         items=[dict(file=F, path=["fn traverse_chain"], ret="r", edits=mono(t), contract=CONTRACT, loop_count=1,
                     loops={0: INV},
@@ -113,18 +113,13 @@ KANI = []
 TRUSTED = ["Verus 0.2026.09.13 + bundled Z3", "global size_of usize == 8", "rewrite R3: T monomorphised to u32 and to u64 (the two instantiations of the crate); T::usize_as == `as`; Into<u64> == `as u64`"]
 ASSUMPTIONS = ["precondition: `next` is well formed (every link points to a row of strictly smaller rank: earlier row for forward insertion, later row for reversed insertion)",
                "precondition from call sites: remaining >= 1 (limit = batch_size >= 1), 1 <= start <= len"]
-NOT_COVERED = ["hashbrown::HashTable lookups (outside Verus; bounded Kani stand-in)", "NULL-key mask", "get_matched_indices (non-paged) loop"]
+NOT_COVERED = ["hashbrown::HashTable itself and update_from_iter (assumed: find contract, valid heads, unique-keys invariant)", "get_matched_indices (non-paged) loop", "contain_hashes (Arrow BooleanBuffer::collect_bool)"]
 EXPLANATION = "The paged chain walk proved to return exactly the next min(remaining, len) rows of the chain and an offset from which the remainder of the same chain is produced (lemma_resume: pages concatenate to the unpaged sequence)."
 
-KANI = [dict(package="datafusion-physical-plan", module="physical_plan/join_hash_map.rs", timeout=2400, harnesses=[
-    dict(name="c14_paged_lookup_bounded_chained_forward", complete=False, bound="build [10,10,20,30] inserted forward, probe [10,20,30,20] (concrete); symbolic NULL mask, page size 1..=6; JoinHashMapU32",
-         what="update_from_iter + get_matched_indices_with_limit_offset in a paging loop == reference (every non-NULL probe row x every equal-hash build row exactly once, in chain order), for every page size and NULL mask"),
-    dict(name="c14_paged_lookup_bounded_chained_reversed_u64", complete=False, bound="build [7,9,7,9,7] inserted in reverse (hash-join build order), probe [9,7,5,7]; symbolic NULL mask, page size 1..=6; JoinHashMapU64; contain_hashes checked",
-         what="same, reversed insertion, 64-bit index map, plus membership test agrees with the build side"),
-    dict(name="c14_paged_lookup_bounded_unique_keys", complete=False, bound="build [1,2,3] (unique keys fast path), probe [3,1,4,2]; symbolic NULL mask, page size 1..=6",
-         what="unique-key fast path agrees with the reference"),
-])]
-TRUSTED += ["Kani 0.68 / CBMC 6.11 for the bounded map-API harnesses (hashbrown executed concretely)"]
+# The bounded Kani harnesses of the whole map API (kani/physical_plan/join_hash_map.rs) are NOT registered:
+# hashbrown does not finish under CBMC here even for `with_capacity(3)` + three concrete inserts
+# (probed: 15 min timeout; the full paged-lookup harnesses 30 min).  The file is kept for reference.
+
 
 # ------------------------------------------------------------------------------------------
 # second Verus family: the whole paged lookup (get_matched_indices_with_limit_offset), with
@@ -144,8 +139,7 @@ def mono_lookup(t):
         dict(rule="R3", find="match_indices.push((*idx - one).into());", replace="match_indices.push((*idx - one) as u64);"),
         dict(rule="R1", find="for (i, &hash) in hash_values[start..end].iter().enumerate() {", replace="for i in 0..(end - start) { let hash = hash_values[start + i];"),
         dict(rule="R1", find="for (i, &hash) in hash_values[to_skip..].iter().enumerate() {", replace="for i in 0..(hash_values.len() - to_skip) { let hash = hash_values[to_skip + i];"),
-        dict(rule="R13", find="valid_keys.is_some_and(|valid| valid.is_null(start + i))", replace="key_is_null(valid_keys, start + i)"),
-        dict(rule="R13", find="valid_keys.is_some_and(|valid| valid.is_null(row_idx))", replace="key_is_null(valid_keys, row_idx)"),
+        dict(rule="R13", regex=r"valid_keys\.is_some_and\(\|valid\| valid\.is_null\(([^()]*)\)\)", replace=r"key_is_null(valid_keys, \1)", count=2),
         dict(rule="R13", find="map.find(hash, |(h, _)| hash == *h)", replace="map_find(map, hash)", count=2),
         dict(rule="R11", find="(start + limit).min(hash_values.len())", replace="min_usize(start + limit, hash_values.len())"),
         # R18: `if c { continue; } REST` at the head of a loop body -> `if !c { REST }` (for-loops with `continue` are
@@ -205,7 +199,7 @@ def lookup_unit(t, d):
         prelude="prelude_lookup.rs",
         proofs_header="pub type IDX = %s;\nspec fn dir_forward() -> bool { %s }\n" % (t, "true" if d else "false"),
         proofs=["proofs_common.rs", "proofs_lookup.rs"],
-        witness="witness_lookup.rs", rlimit=120, min_verified=8, twins=["c14_paged_lookup_bounded_chained_forward"],
+        witness="witness_lookup.rs", rlimit=120, min_verified=8, twins=[],
         tier="quick" if (t, d) in (("u64", True), ("u32", False)) else "thorough",
         items=[
             dict(file=F, path=["fn traverse_chain"], ret="r", edits=mono(t), contract=CONTRACT, loop_count=1,
